@@ -1,10 +1,15 @@
-(* impl-model of the flood limiter of conn.go, as the code is NOW.  Times and durations
-   are nanoseconds in Z (time.Duration is an int64 of nanoseconds; the model has no
-   overflow: see conf/C16.json, assumptions).
+(* impl-model of the flood limiter of conn.go, as the code is NOW (after the repair "the
+   flood limiter credits elapsed time only once").  Times and durations are nanoseconds in
+   Z (time.Duration is an int64 of nanoseconds; the model has no overflow: see
+   conf/C16.json, assumptions).
 
      func (c *ircConn) rate(chars int) time.Duration {
          _time := time.Second + ((time.Duration(chars) * time.Second) / 100)
-         if c.writeDelay += _time - time.Since(c.lastWrite); c.writeDelay < 0 {
+         now := time.Now()
+         since := c.lastWrite
+         if c.lastRate.After(since) { since = c.lastRate }
+         c.lastRate = now
+         if c.writeDelay += _time - now.Sub(since); c.writeDelay < 0 {
              c.writeDelay = 0
          }
          if c.writeDelay > (8 * time.Second) { return _time }
@@ -28,8 +33,11 @@
      sendLoop:  event := <-c.tx;  c.conn.lastWrite = time.Now();  socket write
 
    `rate` never touches lastWrite: it is stamped by sendLoop only, asynchronously to the
-   goroutines that call Send.  The machine below keeps that asynchrony: rate calls,
-   enqueues and sendLoop deliveries are separate actions that a schedule interleaves. *)
+   goroutines that call Send; lastRate is what keeps a stretch of time from being forgiven
+   twice when several rate calls see the same lastWrite.  The machine below keeps that
+   asynchrony: rate calls, enqueues and sendLoop deliveries are separate actions that a
+   schedule interleaves.  (The arithmetic before the repair, and the schedule on which it
+   failed, are kept in Spec/RateBeforeRepair.v.) *)
 Require Import Bytes.
 Open Scope Z_scope.
 
@@ -39,21 +47,28 @@ Definition threshold : Z := 8 * second.                       (* 8 * time.Second
 (* _time: Go's `/` on int64 truncates toward zero = Z.quot *)
 Definition cost (chars : Z) : Z := second + Z.quot (chars * second) 100.
 
-(* the two fields of ircConn the limiter reads and writes *)
-Record rstate : Type := mkR { wd : Z ; last : Z }.            (* writeDelay, lastWrite *)
+(* the three fields of ircConn the limiter reads and writes *)
+Record rstate : Type := mkR { wd : Z ; last : Z ; lastr : Z }.   (* writeDelay, lastWrite, lastRate *)
+
+(* the arithmetic on durations: accumulated delay, time forgiven, size -> new accumulated
+   delay and returned delay *)
+Definition rate_core (w elapsed chars : Z) : Z * Z :=
+  let t := cost chars in
+  let w1 := w + (t - elapsed) in                              (* += _time - now.Sub(since) *)
+  let w' := if w1 <? 0 then 0 else w1 in
+  (w', if threshold <? w' then t else 0).
 
 (* one call of ircConn.rate at clock reading `now`: new state and returned delay *)
 Definition rate (s : rstate) (now chars : Z) : rstate * Z :=
-  let t := cost chars in
-  let w := wd s + (t - (now - last s)) in                     (* += _time - time.Since(lastWrite) *)
-  let w' := if w <? 0 then 0 else w in
-  (mkR w' (last s), if threshold <? w' then t else 0).
+  let since := if last s <? lastr s then lastr s else last s in   (* lastRate.After(lastWrite) *)
+  let '(w', d) := rate_core (wd s) (now - since) chars in
+  (mkR w' (last s) now, d).
 
 (* ---- a call sequence against arbitrary clock readings -------------------------------- *)
-(* Each call is (elapsed, chars): elapsed = time.Since(lastWrite) as this call reads it,
-   whatever sendLoop did in between.  Returns the final writeDelay and the delays. *)
-Definition rate_el (w : Z) (c : Z * Z) : Z * Z :=
-  let '(s, d) := rate (mkR w 0) (fst c) (snd c) in (wd s, d).
+(* Each call is (elapsed, chars): elapsed = now.Sub(since) as this call computes it,
+   whatever sendLoop and other callers did in between.  Returns the final writeDelay and
+   the delays. *)
+Definition rate_el (w : Z) (c : Z * Z) : Z * Z := rate_core w (fst c) (snd c).
 
 Fixpoint run (w : Z) (calls : list (Z * Z)) : Z * list Z :=
   match calls with
@@ -75,7 +90,7 @@ Fixpoint run_sync (s : rstate) (steps : list (Z * Z * Z)) : rstate * list (Z * Z
       let now := last s + gap in
       let '(s1, d) := rate s now chars in
       let w := now + d + slack in
-      let '(s2, out) := run_sync (mkR (wd s1) w) rest in
+      let '(s2, out) := run_sync (mkR (wd s1) w (lastr s1)) rest in
       (s2, (now, d, w) :: out)
   end.
 
@@ -102,7 +117,7 @@ Definition step (s : sys) (a : action) : sys * option Z :=
   | ADeliver now =>
       match tx s with
       | [] => (s, None)
-      | e :: q => (mkS (mkR (wd (rs s)) now) q ((now, e) :: wire s), None)
+      | e :: q => (mkS (mkR (wd (rs s)) now (lastr (rs s))) q ((now, e) :: wire s), None)
       end
   end.
 
